@@ -6,6 +6,7 @@ import (
 	"go/token"
 	"go/types"
 	"os"
+	"regexp"
 	"sort"
 	"strings"
 
@@ -412,6 +413,8 @@ func (vc *FuncVC) execBuiltin(st *State, reach Term, ins *ssa.Call, b *ssa.Built
 // siteAsserts: the ghost assertions a contract places before a call site (assert before CALLEE#n: [label] FACT) are proved
 // there and then assumed. FACT sees the parameters (entry values), now(p), the source-level locals and the actual
 // arguments of the call as arg0, arg1, ... (scalars and strings).
+var witnessScope = regexp.MustCompile(`^([a-z]+)w_`)
+
 func (vc *FuncVC) siteAsserts(st *State, reach Term, ins *ssa.Call, site string) {
 	as := vc.fc.Asserts[site]
 	if len(as) == 0 {
@@ -458,6 +461,12 @@ func (vc *FuncVC) siteAsserts(st *State, reach Term, ins *ssa.Call, site string)
 			continue
 		}
 		vc.oblige("R", fmt.Sprintf("assert/%s/%s", site, label), reach, t, clauseTags(a, vc.propTags()), ins.Pos(), a.Src)
+		if m := witnessScope.FindStringSubmatch(label); m != nil {
+			if vc.scoped == nil {
+				vc.scoped = map[string]string{}
+			}
+			vc.scoped[Implies(reach, t).S] = m[1]
+		}
 		vc.assume(Implies(reach, t))
 		vc.assertsSeen[site] = true
 	}
